@@ -6,7 +6,7 @@ COQ = '/verif/coq'
 HEADER = '''From Coq Require Import ZArith List Bool Arith Lia.
 From QV Require Import Core.Bits Core.Pauli Core.Symp Core.Code Core.Span Core.Rank Core.Dist Core.DistCSS Generated.LatticeArith.
 From QV Require Import Lattice.Basic Lattice.Planar Lattice.Toric Lattice.PlanarBounded Lattice.ToricBounded Lattice.PlanarAll Lattice.ToricAll Lattice.PlanarRankAll Lattice.ToricPathWeightAll Lattice.PlanarDistAll Lattice.ToricRankAll Lattice.ToricDistAll.
-From QV Require Import Lattice.RotPlanar Lattice.RotToric Lattice.Color Lattice.RotPlanarAll Lattice.RotPlanarBounded Lattice.RotToricBounded Lattice.ColorBounded Lattice.RotPlanarValidAll Lattice.RotToricValidAll Lattice.RotToricPathAll Lattice.ColorValidAll Lattice.RotPlanarRankAll Lattice.RotPlanarDistAll Lattice.RotToricRankAll Lattice.RotToricDistAll Lattice.RotToricPathWeightAll.
+From QV Require Import Lattice.RotPlanar Lattice.RotToric Lattice.Color Lattice.RotPlanarAll Lattice.RotPlanarBounded Lattice.RotToricBounded Lattice.ColorBounded Lattice.RotPlanarValidAll Lattice.RotToricValidAll Lattice.RotToricPathAll Lattice.ColorValidAll Lattice.RotPlanarRankAll Lattice.RotPlanarDistAll Lattice.RotToricRankAll Lattice.RotToricDistAll Lattice.RotToricPathWeightAll Lattice.ColorRankAll Lattice.ColorDistAll.
 Import ListNotations.
 Open Scope Z_scope.
 '''
@@ -39,6 +39,7 @@ SPEC = {
    ('color_flatten_injective_all', 'colour, all sizes: flatten injective on in-bounds sites, range within [0,n)'), ('color_flatten_range_all', ''),
    ('rotplanar_rank_is_all', 'ROTATED PLANAR, ALL SIZES: rank n-1, with the two logicals n+1'), ('rotplanar_rank_nkd', ''), ('rotplanar_stabilizers_count_all', ''), ('rotplanar_valid_shape_all', 'rotated planar, all sizes: validate = Ok and n, k = matrix shapes'),
    ('rottoric_rank_is_all', 'ROTATED TORIC, ALL EVEN SIZES: rank n-2, with the four logicals n+2'), ('rottoric_rank_all', ''), ('rottoric_valid_shape_all', ''),
+   ('color_rank_all', 'COLOUR 6.6.6, ALL ODD SIZES: rank n-1, with the two logicals n+1'), ('color_flatten_all', 'colour, all sizes: flatten is a bijection from in-bounds sites onto [0,n)'), ('color_valid_all_full', 'colour, all sizes: validate = Ok and n, k = matrix shapes'),
    ('rotplanar_valid_upto_9', 'rotated planar 3..9'), ('rotplanar_shapes_upto_9', ''), ('rotplanar_rank_upto_9', ''),
    ('rp_flatten_range', 'rotated planar, ALL SIZES: flatten bijection'), ('rp_flatten_injective', ''), ('rp_flatten_surjective', ''),
    ('rp_ctor_ok_iff', 'constructor acceptance = documented range (all argument values)'), ('rp_ctor_type_error_iff', ''),
@@ -67,6 +68,7 @@ SPEC = {
    ('toric_distance_upto5_spec', 'toric <= 5x5 except 5x5'),
    ('rotplanar_is_distance_all', 'ROTATED PLANAR, ALL SIZES: min(rows, cols) IS the minimum distance'), ('rotplanar_is_distance_nkd', ''), ('rotplanar_distance_lower_all', ''), ('rotplanar_centralizer', 'rotated planar, all sizes: centralizer lemma'), ('rotplanar_logicals_nontrivial', ''),
    ('rottoric_is_distance_all', 'ROTATED TORIC, ALL EVEN SIZES: min(rows, cols) IS the minimum distance'), ('rottoric_is_distance_nkd', ''), ('rottoric_distance_lower_all', ''), ('rottoric_centralizer', 'rotated toric, all sizes: centralizer lemma'),
+   ('color_distance_all', 'COLOUR 6.6.6, ALL ODD SIZES: d = size IS the minimum distance'), ('color_distance_lower_all', ''), ('color_distance_upper_all', ''), ('color_centralizer_all', 'colour, all sizes: centralizer lemma'), ('color_logical_weights_all', ''), ('tri_lower', 'combinatorial core: even overlap with every hexagon and odd bottom-row parity force weight >= 2j+1'),
    ('rotplanar_distance_upto_6x5', 'rotated planar 3..6 with min <= 5'), ('rp_logical_weights_all', 'rotated planar, all sizes: lighter logical weighs d'),
    ('rottoric_distance_small', 'rotated toric small sizes'), ('rt_logical_weights_all', ''),
    ('color_distance_upto_5', 'colour 3, 5'), ('color_logical_weights_upto_21', ''),
